@@ -164,7 +164,23 @@ def run_for(prop, root="/repo", jobs=16, verbose=True, only=None, want_info=Fals
                     h.update(f.read_bytes())
         return h.hexdigest()
 
-    sa_d = _digest_tree(HERE, ["*.py", "rules/*.py", "*.json"])
+    # analyser files this property's check can execute: the engines, the shared rule modules, its own rule module and the rule
+    # modules that one imports
+    import re as _re
+
+    mods = {f"rules/{prop.lower()}.py", "rules/shared.py", "rules/keys.py", "rules/__init__.py"}
+    frontier = [HERE / "rules" / f"{prop.lower()}.py"]
+    while frontier:
+        f_ = frontier.pop()
+        if not f_.exists():
+            continue
+        for m_ in _re.findall(r"from \.(c\d\d) import|from \. import (c\d\d)|import_module\([\"']sa\.rules\.(c\d\d)", f_.read_text()):
+            nm = next(x for x in m_ if x)
+            rel = f"rules/{nm}.py"
+            if rel not in mods:
+                mods.add(rel)
+                frontier.append(HERE / rel)
+    sa_d = _digest_tree(HERE, ["*.py", "*.json", *sorted(mods)])
     repo_d = _digest_tree(root, ["src/**/*.py", "pyproject.toml"])
     cache_f = VERIF / "selftest" / "cache" / f"{prop}.json"
     try:
